@@ -26,6 +26,8 @@ from pyvc.symex import Executor
 from pyvc.values import NONE, VBool, VExc, VExt, VFunc, VStr, VTuple, VUnk, fresh_name
 from pyvc.verify import Maker
 
+from contracts import c15_own as O
+
 PDF = "sharepoint2text/parsing/extractors/pdf/pdf_extractor.py"
 AESF = "sharepoint2text/parsing/extractors/pdf/_pypdf_aes_fallback.py"
 ARCH = "sharepoint2text/parsing/extractors/archive_extractor.py"
@@ -242,42 +244,127 @@ def policy(repo, tier):
                     why.append(f"line {n.lineno}: installs {src}")
         fns.append(dict(aes.fn_info("patch_pypdf_fallback_aes"), obligations=1))
     G("C15/_pypdf_aes_fallback.py::patch_pypdf_fallback_aes/frame#installs-only-stateless-functions-(idempotent)", ok, "; ".join(why), AESF)
-    # H3 / H5: module-level mutable state and memo soundness
-    inventory = {}
-    for rel, m in mods.items():
-        for name, e in m.assigns.items():
-            mutable = isinstance(e, (ast.Dict, ast.List, ast.Set)) or (isinstance(e, ast.Call) and dotted(e.func) in ("dict", "list", "set", "OrderedDict", "collections.OrderedDict", "defaultdict"))
-            if not mutable:
-                continue
-            writers = []
-            for q, fn in m.functions.items():
-                for n in _own(fn):
-                    if isinstance(n, (ast.Assign, ast.AugAssign)):
-                        for t in (n.targets if isinstance(n, ast.Assign) else [n.target]):
-                            if isinstance(t, ast.Subscript) and isinstance(t.value, ast.Name) and t.value.id == name:
-                                writers.append((q, fn, n, t))
-                    if isinstance(n, ast.Call) and isinstance(n.func, ast.Attribute) and isinstance(n.func.value, ast.Name) and n.func.value.id == name \
-                            and n.func.attr in ("append", "extend", "update", "setdefault", "add", "pop", "popitem", "clear", "move_to_end", "insert"):
-                        writers.append((q, fn, n, None))
-            if writers:
-                inventory[f"{rel.split('/')[-1]}::{name}"] = writers
-    expected = {"pdf_extractor.py::_FONT_CACHE", "serialization.py::_TYPE_REGISTRY", "_pypdf_aes_fallback.py::_ROUND_KEY_CACHE"}
-    extra = sorted(set(inventory) - expected)
-    G("C15/package/policy#inventory-of-module-level-mutable-state", not extra and expected <= set(inventory),
-      f"mutated module-level containers: {sorted(inventory)}" + (f"; NOT in the reviewed inventory: {extra}" if extra else ""), "package")
-    for key, writers in sorted(inventory.items()):
-        k = 0
-        for (q, fn, n, t) in writers:
-            if t is None or not isinstance(n, ast.Assign):
-                continue
-            params = [a.arg for a in fn.args.args + fn.args.kwonlyargs]
-            kd = deps(fn, t.slice, params)
-            vd = deps(fn, n.value, params)
+    # H3 / H5 / H7..H9: module-level state -- inventory, memo soundness, write discipline, ownership, atomicity (contracts/c15_own.py)
+    an = O.Analysis(repo, files)
+    rel_of = {an.sid(rel, name): rel for (rel, name) in an.state}
+    written = an.written_states()
+    expected = {"pdf_extractor.py::_FONT_CACHE", "serialization.py::_TYPE_REGISTRY", "_pypdf_aes_fallback.py::_ROUND_KEY_CACHE", "archive_extractor.py::_config"}
+    extra = sorted(set(written) - expected)
+    G("C15/package/policy#inventory-of-module-level-mutable-state", not extra and expected <= set(written) and an.converged,
+      f"mutated module-level objects: {written}" + (f"; NOT in the reviewed inventory: {extra}" if extra else ""), "package")
+
+    def hint(x, **kw):
+        return dict({"state": x, "rel": rel_of.get(x), "functions": O.touching_functions(an, x)}, **kw)
+
+    def GH(oid, ok, why, loc, definite=True, h=None):
+        o = ground_obligation(oid, ok, why, loc, definite=definite)
+        if h is not None:
+            o["replay_hint"] = h
+        obls.append(o)
+
+    for x in written:
+        cw = sorted(O.content_writes(an, x), key=lambda e: (e["fn"], e["node"].lineno, e["node"].col_offset))
+        keyed = [e for e in cw if e["key"] is not None and e["value"] is not None and not e["removal"]]
+        accessors = sorted({e["fn"][1] for e in cw})
+        per_fn = {}
+        for e in keyed:
+            fn = an.fns[e["fn"]]
+            q = e["fn"][1]
+            k = per_fn.get(q, 0)
+            per_fn[q] = k + 1
+            kd = O.deps(an, fn, e["key"], exclude_state=(x,))
+            vd = O.deps(an, fn, e["value"], exclude_state=(x,))
             ok = vd <= kd
-            G(f"C15/{key}/memo#stored-value-depends-only-on-the-key-{q}-{k}", ok,
-              f"{q}: key depends on {sorted(kd)}, stored value depends on {sorted(vd)}" + ("" if ok else " -- a later call with the same key and other arguments gets a stale value"),
-              key)
-            k += 1
+            h = hint(x, writer=q, accessors=accessors)
+            # H3a: the stored value is computed from nothing but what the key is computed from (parameters and module state)
+            GH(f"C15/{x}/memo#stored-value-depends-only-on-the-key-{q}-{k}", ok,
+               f"{q}: key depends on {sorted(kd)}, stored value depends on {sorted(vd)}" + ("" if ok else " -- a later call with the same key and other arguments gets a stale value"), x, h=h)
+            # H3b: ... and the key DETERMINES each of those inputs (two different inputs never share a key)
+            lost = [p for p in sorted(vd) if not p.startswith("state:") and not O.determines(an, fn, e["key"], p)]
+            GH(f"C15/{x}/memo#key-determines-every-input-of-the-stored-value-{q}-{k}", not lost,
+               f"{q}: key `{ast.unparse(e['key'])[:80]}`" + (f" is not built injectively from {lost}: two calls that differ in {lost} may share a cache entry" if lost else
+                                                              f" is built from {sorted(vd)} by tuples / order-preserving conversions only"), x, definite=False, h=h)
+        # H3c: lookups and stores of one accessor use one key expression
+        for q in accessors:
+            fn = an.fns[[e["fn"] for e in cw if e["fn"][1] == q][0]]
+            keys = set()
+            for n in fn.own:
+                if isinstance(n, ast.Subscript) and not isinstance(n.slice, ast.Slice) and O.is_state_expr(an, fn, n.value, x):
+                    keys.add(ast.unparse(n.slice))
+                elif isinstance(n, ast.Compare) and len(n.ops) == 1 and isinstance(n.ops[0], (ast.In, ast.NotIn)) and O.is_state_expr(an, fn, n.comparators[0], x):
+                    keys.add(ast.unparse(n.left))
+                elif isinstance(n, ast.Call) and isinstance(n.func, ast.Attribute) and n.func.attr in ("get", "setdefault", "pop", "move_to_end") and n.args \
+                        and O.is_state_expr(an, fn, n.func.value, x):
+                    keys.add(ast.unparse(n.args[0]))
+            if keys:
+                GH(f"C15/{x}/memo#lookup-key-is-the-store-key-{q}", len(keys) == 1, f"{q}: key expressions used on the cache: {sorted(keys)}", x, definite=False,
+                   h=hint(x, writer=q, accessors=accessors))
+        # H7: every content-changing write happens after a miss of the state's own lookup, in its accessor
+        unguarded = []
+        for e in cw:
+            if e["removal"]:
+                continue
+            fn = an.fns[e["fn"]]
+            if O.miss_guard(an, fn, e["node"], x) is None:
+                unguarded.append(f"{e['fn'][1]}: {e['how']}")
+        if cw:
+            GH(f"C15/{x}/frame#written-only-after-a-miss-of-its-own-lookup", not unguarded,
+               "; ".join(unguarded) or f"{len([e for e in cw if not e['removal']])} write(s), each behind an `if <lookup hit>: return`; accessor(s): {accessors}", x,
+               definite=False, h=hint(x, accessors=accessors))
+        # H8: a reader that takes "non-empty" for "completely populated" -> every write sits behind that guard and stores nothing call-specific
+        eg = O.emptiness_guards(an, x)
+        if eg:
+            bad = []
+            for e in cw:
+                fn = an.fns[e["fn"]]
+                okw = False
+                for (gf, g, form) in eg:
+                    if gf is not fn:
+                        continue
+                    pm = O.parents_of(fn)
+                    if form == "nonempty-return" and e["node"].lineno > g.end_lineno:
+                        okw = True
+                    if form == "empty-populate" and O.inside(pm, e["node"], g.body):
+                        okw = True
+                if not okw:
+                    bad.append(f"{e['fn'][1]}: {e['how']} is outside the populate-once guard of {sorted({gf.q for (gf, _g, _f) in eg})}")
+                    continue
+                for part in ("key", "value"):
+                    if e[part] is not None:
+                        d = {p for p in O.deps(an, fn, e[part], exclude_state=(x,)) if not p.startswith("state:")}
+                        if d:
+                            bad.append(f"{e['fn'][1]}: {e['how']} stores something that depends on the call ({sorted(d)})")
+            GH(f"C15/{x}/frame#non-empty-means-completely-populated", not bad,
+               "; ".join(bad) or f"guard in {sorted({gf.q for (gf, _g, _f) in eg})}; all {len(cw)} write(s) behind it, none depends on a parameter", x,
+               h=hint(x, accessors=accessors))
+            # H9b (schedules): the population is not observable half-done by another thread
+            direct = [e for e in cw if not e["removal"] and not O.locked(an.fns[e["fn"]], e["node"])]
+            stepwise = [e for e in direct if an.fns[e["fn"]].loops.get(id(e["node"]))] or (direct if len(direct) > 1 else [])
+            GH(f"C15/{x}/schedule#populate-once-state-is-published-atomically", not stepwise,
+               "; ".join(f"{e['fn'][1]}: {e['how']} fills the shared object step by step: a thread that tests it meanwhile takes the partial content for complete" for e in stepwise[:3])
+               or "one write statement outside loops (or under a lock)", x, definite=False, h=hint(x, accessors=accessors))
+        # H9a (schedules): where entries can be evicted, operations that need their key present tolerate a concurrent eviction
+        if any(e["removal"] for e in an.writes(x)):
+            acts = O.keyed_acts(an, x)
+            per = {}
+            for (fn, n, text) in acts:
+                k = per.get(fn.q, 0)
+                per[fn.q] = k + 1
+                ok = O.tolerant_or_locked(fn, n)
+                GH(f"C15/{x}/schedule#keyed-act-tolerates-a-concurrent-eviction-{fn.q}-{k}", ok,
+                   f"{fn.q} line {n.lineno}: `{text}` " + ("is inside try/except KeyError or a lock" if ok else
+                                                          "raises KeyError when another thread evicts the entry between the lookup and this statement"), x,
+                   definite=False, h=hint(x, accessors=accessors, act=fn.q))
+        # H10: ownership -- objects stored in / handed out by the state are never mutated afterwards
+        vm = an.vmuts(x)
+        GH(f"C15/{x}/ownership#objects-handed-out-by-the-cache-are-never-mutated", not vm,
+           "; ".join(f"{e['fn'][1]}: {e['how']}" for e in vm[:4]) or f"handed out through {[k[1] for k, f in sorted(an.fns.items()) if ('V:' + x) in f.ret or ('S:' + x) in f.ret]}; no mutation site reaches them",
+           x, definite=any(e["definite"] for e in vm), h=hint(x, accessors=accessors))
+    # H10 for module-level tables nobody writes and for memoised results (lru_cache): never mutated through an alias either
+    other = [e for e in an.events if e["kind"] == "vmut" and e["state"] not in written]
+    GH("C15/package/ownership#module-level-tables-and-memoised-results-are-never-mutated-through-aliases", not other,
+       "; ".join(f"{e['state']} in {e['fn'][1]}: {e['how']}" for e in other[:4]) or f"{len(an.state)} module- / class-level mutable objects, {len(an.cached_fns)} memoised functions", "package",
+       definite=any(e["definite"] for e in other), h={"rel": rel_of.get(other[0]["state"]) if other else None})
     # lru_cache functions: pure functions of their parameters, apart from the listed read-only globals
     for rel, m in mods.items():
         for q, fn in m.functions.items():
@@ -285,7 +372,8 @@ def policy(repo, tier):
                 params = {a.arg for a in fn.args.args}
                 stores = [x for x in _own(fn) if isinstance(x, (ast.Global, ast.Nonlocal))]
                 attr_stores = [x for x in _own(fn) if isinstance(x, (ast.Attribute, ast.Subscript)) and isinstance(x.ctx, ast.Store)]
-                reads_config = [x.id for x in _own(fn) if isinstance(x, ast.Name) and x.id == "_config"]
+                afn = an.fns.get((rel, q))
+                reads_config = sorted(set(afn.reads) & set(written)) if afn is not None else ["?"]
                 G(f"C15/{rel.split('/')[-1]}::{q}/memo#lru_cache-wrapped-function-has-no-side-effect-and-reads-no-mutable-config",
                   not stores and not attr_stores and not reads_config, f"globals={len(stores)} stores={len(attr_stores)} config-reads={len(reads_config)}", rel)
     # H5b: module-level names rebound from inside functions (`global X`): flags, counters, configuration
@@ -303,7 +391,8 @@ def policy(repo, tier):
       "; ".join(extra_g) or f"{len(rebinders)} rebinding site(s), all in the reviewed list", "package")
     # H4: _config
     arch = mods[ARCH]
-    writers = [q for q, fn in arch.functions.items() if any(isinstance(n, ast.Global) and "_config" in n.names for n in _own(fn))]
+    writers = sorted({q for q, fn in arch.functions.items() if any(isinstance(n, ast.Global) and "_config" in n.names for n in _own(fn))}
+                     | {e["fn"][1] for e in an.writes("archive_extractor.py::_config")})
     G("C15/archive_extractor.py::_config/frame#written-only-by-configure_archive_extraction", writers == ["configure_archive_extraction"], str(writers), ARCH)
     # H6: handles closed on all paths
     bad, n_sites = [], 0
@@ -380,8 +469,35 @@ def validate_histories(repo, tier):
     if "mismatches" not in res:
         return {"obligations": [], "undecided": [{"obligation": oid, "why": "native validation did not run: " + str(res.get("note", ""))[:200]}]}
     mm = res["mismatches"]
-    return {"obligations": [ground_obligation(oid, not mm, "; ".join(f"{m[0]}: {m[1]}" for m in mm[:6]) or f"{res.get('fixtures')} fixtures agree", "package",
-                                              kind="assumption-validation", backend="native-replay(bounded: repository fixtures, 2 orders)")]}
+    o = ground_obligation(oid, not mm, "; ".join(f"{m[0]}: {m[1]}" for m in mm[:6]) or f"{res.get('fixtures')} fixtures + generated documents agree", "package",
+                          kind="assumption-validation", backend="native-replay(bounded: generated documents pairwise, stored payloads, repository fixtures in 2 orders)")
+    o["bounded"] = True          # a bounded native run: never counted as discharged
+    o["bound"] = "generated documents (every ordered pair), (de)serialisation after one other step, repository fixtures forward / reverse"
+    return {"obligations": [o]}
+
+
+def known_findings(kf, violations, repo, tier):
+    """Recorded genuine defects (schedule half).  A recorded finding covers its obligation only while the native replayer still
+    reproduces it *at the recorded place*: the preemption point of the reproduced schedule must lie in the recorded function."""
+    import json
+    vio = {v["id"]: v for v in violations}
+    out = []
+    for f in kf:
+        o = vio.get(f["obligation"])
+        still, detail = False, ""
+        rp = (o or {}).get("_replayed") or {}
+        if o is not None and rp.get("reproduced"):
+            try:
+                rec = json.load(open(rp["path"]))
+            except Exception:  # noqa
+                rec = {}
+            where = str((rec.get("inputs") or {}).get("preemption_point") or "")
+            want = (f.get("witness") or {}).get("preempt_in")
+            still = bool(want) and where.endswith(" in " + want)
+            detail = str((rec.get("inputs") or {}).get("schedule") or "")[:300] + " -> " + str(rec.get("observed"))[:120]
+        out.append({"finding": f["id"], "still_fails": still, "line": f"{f['id']}: {f['what']}", "covers": [f["obligation"]] if still else [],
+                    "witness_replay": detail})
+    return out
 
 
 EXTRA = [policy, validate_histories]
